@@ -38,6 +38,8 @@ def _dishonest_uploader(res: dict, params: dict, rng: random.Random):
     variant = UP_VARIANTS[params['i'] % len(UP_VARIANTS)] if params['i'] < 2 * len(UP_VARIANTS) else rng.choice(UP_VARIANTS)
     size = rng.choice([1, 127, 128, 129, 8191, 8192, 8193, 20000])
     honest_retry = rng.random() < 0.7
+    # the user queues a download that ended FAILED once more (a later attempt on the same local file)
+    requeue_failed = random.Random(f"{params['seed']}:C04:dis:rq:{params['i']}").random() < 0.6
     source = make_source(('dis', params['seed'], params['i']), size)
     remote_path = '@@evil\\music\\song.mp3'
     tm = TransferMonitor()
@@ -90,6 +92,11 @@ def _dishonest_uploader(res: dict, params: dict, rng: random.Random):
             trace.append((round(w.now, 3), 'offset', offset, 'local', local, v))
             if offset != local:
                 viol.append(('resume-offset-mismatch', {'offset_on_wire': offset, 'local_size': local, 'variant': v}))
+            if v == 'honest' and offset > size:
+                # what an honest uploader does with an offset beyond the file: it gives up
+                trace.append((round(w.now, 3), 'offset-beyond-file', offset))
+                f.close()
+                return
             body = source[offset:]
             if v != 'honest':
                 obs['dishonest_attempts'] += 1
@@ -149,6 +156,16 @@ def _dishonest_uploader(res: dict, params: dict, rng: random.Random):
 
         await wait_until(lambda: state_name(t) in ('COMPLETE', 'FAILED') and state['attempt'] >= 1, 1500.0, step=1.0)
         await settle(5.0)
+        if requeue_failed and state_name(t) == 'FAILED':
+            n_before = state['attempt']
+            trace.append((round(w.now, 3), 'user-requeue'))
+            try:
+                await dn.call(dn.client.transfers.queue(t))
+                obs['requeued_after_failed'] = obs.get('requeued_after_failed', 0) + 1
+            except Exception as exc:  # noqa  (a refusal is fine)
+                trace.append((round(w.now, 3), 'requeue-refused', repr(exc)))
+            await wait_until(lambda: state_name(t) in ('COMPLETE', 'FAILED') and state['attempt'] > n_before, 600.0, step=1.0)
+            await settle(5.0)
         final = {'state': state_name(t), 'fail_reason': t.fail_reason, 'attempts': state['attempt'],
                  'bytes_transfered': t.bytes_transfered, 'virtual_s': round(w.now, 1)}
         lp = t.local_path
